@@ -7,8 +7,11 @@ import os
 
 ROOT = os.path.dirname(os.path.dirname(os.path.abspath(__file__)))
 checks = []
+enabled = set(open(os.path.join(ROOT, "props", "enabled.txt")).read().split())
 for f in sorted(glob.glob(os.path.join(ROOT, "props", "C*.manifest.json"))):
     c = json.load(open(f))
+    if c["property_id"] not in enabled:
+        continue
     pid = c["property_id"]
     c.setdefault("quick_cmd", "./check %s quick" % pid)
     c.setdefault("thorough_cmd", "./check %s thorough" % pid)
